@@ -20,12 +20,28 @@ def prepare(prog):
         if isinstance(st, ast.If) and len(st.body) == 1 and isinstance(st.body[0], ast.Return) and "rest_poll_interval" in ast.unparse(st.test):
             gate = st
     if gate is not None:
-        is_start = lambda s: isinstance(s, ast.AugAssign) and ast.unparse(s.target) == "s.current_tick"
-        belongs = lambda s: isinstance(s, (ast.Assign, ast.AugAssign))
-        try:
-            a = extract_block(prog, f"{MRS}:rest_scheduler", "rest_gate", is_start, belongs, ["s", "results", "pipelines"], ast.unparse(gate.test))
-        except KeyError:
-            pass
+        # every top-level statement from `s.current_tick += 1` up to the gate: assignments are kept; any other statement is dropped only
+        # if it provably cannot influence them or the gate's test - it binds no name they read, writes no attribute or subscript and
+        # does not leave the block (on the pinned tree: the timing log of the final tick); otherwise the contract does not attach
+        from pyvc.extract import register_block, stores_of, reads_of
+        body = fn.body
+        i0 = next((k for k, st in enumerate(body) if isinstance(st, ast.AugAssign) and ast.unparse(st.target) == "s.current_tick"), None)
+        ig = body.index(gate)
+        if i0 is not None and i0 < ig:
+            kept = [st for st in body[i0:ig] if isinstance(st, (ast.Assign, ast.AugAssign))]
+            needed = reads_of(kept + [gate.test])
+            ok = True
+            for st in body[i0:ig]:
+                if st in kept:
+                    continue
+                names, other = stores_of(st)
+                if other or (names & needed):
+                    ok = False
+            if ok:
+                try:
+                    a = register_block(prog, f"{MRS}:rest_scheduler", "rest_gate", kept, ["s", "results", "pipelines"], ast.unparse(gate.test))
+                except KeyError:
+                    pass
     is_start2 = lambda s: isinstance(s, ast.For) and ast.unparse(s.iter) == "pipelines" and "other_pipelines" in ast.unparse(s)
     belongs2 = lambda s: isinstance(s, ast.For)
     try:
